@@ -533,7 +533,7 @@ def _probes() -> Dict[str, int]:
     return {k: 0 for k in ["loads", "readbacks", "merges", "merge_files", "compares", "node_compares", "equal_pairs_judged", "unequal_pairs_judged",
                            "annotation_only_pair", "alias_compared", "flip_kept_valid", "fault_schema_invalid", "fault_not_json", "gate_invocations",
                            "gate_prepopulated", "second_file_bad", "violation_class_fired", "edits_applied", "edits_with_rare_kinds", "load_rejected_valid",
-                           "plugin_probe_unavailable", "reloads_same_objects", "first_file_bad", "default_model_bad", "truncation_points", "cli_merge_runs", "multi_violation_docs", "cross_class_compares", "twin_nodes_built", "merge_with_duplicates", "merge_with_empty_section", "merge_same_object_twice", "unreadable_enoent", "unreadable_eio", "unreadable_directory", "metadata_first_file"]}
+                           "plugin_probe_unavailable", "reloads_same_objects", "first_file_bad", "default_model_bad", "truncation_points", "cli_merge_runs", "multi_violation_docs", "merged_vs_first_compares", "cross_class_compares", "twin_nodes_built", "merge_with_duplicates", "merge_with_empty_section", "merge_same_object_twice", "unreadable_enoent", "unreadable_eio", "unreadable_directory", "metadata_first_file"]}
 
 
 def _result(t: Dict[str, Any], viol: List[Dict[str, str]], probes: Dict[str, int], skipped: Optional[str] = None, evlog: Any = None) -> Dict[str, Any]:
@@ -825,6 +825,21 @@ def run_history(t: Dict[str, Any]) -> Dict[str, Any]:
                         viol.append({"sig": "merge-unequal-to-single-load", "msg": f"op {oi}: merged model compares unequal to the single-file load of the same declarations"})
                 except Exception as e:
                     viol.append({"sig": f"compare-raised:{norm_exc(e)}", "msg": f"comparing merged and single models raised {core.fmt_exc(e)}"})
+                # a merged model is a model like any other: it must differ from a load of its first file
+                # alone (when the other files add anything) and takes part in all later comparisons
+                try:
+                    m_first = _load(pristine[:1])
+                    adds = any(p_[sec] for p_ in pristine[1:] for sec in models.SECTIONS)
+                    probes["merged_vs_first_compares"] += 1
+                    if adds and (m == m_first or not (m != m_first)):
+                        viol.append({"sig": "merged-model-equals-first-file", "msg": f"op {oi}: the model merged from {len(parts)} files compares equal to a load of its first file alone although the other files add declarations"})
+                    if not adds and not (m == m_first):
+                        viol.append({"sig": "merged-model-differs-from-first-file", "msg": f"op {oi}: later files add nothing, yet the merged model compares unequal to the first file's model"})
+                except Exception as e:
+                    viol.append({"sig": f"compare-raised:{norm_exc(e)}", "msg": f"comparing merged and first-file models raised {core.fmt_exc(e)}"})
+                if not diff:
+                    loads.append((copy.deepcopy(norm_doc(want)), m))
+                    _compare_models(loads, r, probes, viol)
                 evlog.append(["SPLIT", op[1], variant])
             elif kind == "FAULT":
                 fr = random.Random(op[2])
@@ -1099,7 +1114,7 @@ def main(argv: List[str]) -> int:
         "run_kinds": kinds,
         "violation_classes_total": classes_total,
         "violation_classes_fired": classes_fired,
-        "faults_fired": {k: probes.get(k, 0) for k in ["fault_not_json", "fault_schema_invalid", "flip_kept_valid", "second_file_bad", "first_file_bad", "default_model_bad", "truncation_points", "cli_merge_runs", "multi_violation_docs", "cross_class_compares", "twin_nodes_built", "merge_with_duplicates", "merge_with_empty_section", "merge_same_object_twice", "violation_class_fired",
+        "faults_fired": {k: probes.get(k, 0) for k in ["fault_not_json", "fault_schema_invalid", "flip_kept_valid", "second_file_bad", "first_file_bad", "default_model_bad", "truncation_points", "cli_merge_runs", "multi_violation_docs", "merged_vs_first_compares", "cross_class_compares", "twin_nodes_built", "merge_with_duplicates", "merge_with_empty_section", "merge_same_object_twice", "violation_class_fired",
                                                         "unreadable_enoent", "unreadable_eio", "unreadable_directory", "gate_prepopulated"]},
         "probes": probes,
         "skipped": skipped,
